@@ -133,8 +133,8 @@ PROPS["C01"] = dict(
 
 PROPS["C13"] = dict(
     level="proof",
-    verus=["c13_redirect", "c04_partition", "c18_gate", "c05_optimizer", "c13_store"],
-    labels=["C13.", "C04.new.redirects", "C04.new.filters", "C06.add_filter.", "C18.perm.is_default", "C05.select."] + MASK,
+    verus=["c13_redirect", "c04_partition", "c18_gate", "c05_optimizer", "c13_store", "c03_option_text"],
+    labels=["C13.", "C04.new.redirects", "C04.new.filters", "C06.add_filter.", "C18.perm.is_default", "C05.select.", "C03.option_text."] + MASK,
     kani=[],
     witness=["c13_store.rs"],
     trusted=["memchr::memrchr = last occurrence (shim)", "<i32 as FromStr>::from_str uninterpreted", "[T]::contains = membership",
@@ -243,7 +243,7 @@ PROPS["C16"] = dict(
     level="proof",
     verus=["c16_labels", "c16_resources", "c16_store", "c16_engine", "c12_domain", "c11_cosmetic_parse", "c11_locations", "c12_offsets"],
     labels=["C16.", "C18.resources.", "C12.domain.", "C17.cosmetic.parse.", "C18.cosmetic.parse.", "C12.offsets.", "C12.host.", "C12.scheme."],
-    witness=["c16_generic_parse.rs", "c16_scoping.rs"],
+    witness=["c16_generic_parse.rs", "c16_scoping.rs", "c18_args.rs"],
     kani=[],
     trusted=["memchr/memrchr (shims)", "seahash uninterpreted",
              "CosmeticFilter::parse is under contract in unit c11_cosmetic_parse for its frame (markers, +js form, generic restrictions, double negation) with parse_after_sharp_nonscript and validate_css_selector uninterpreted; the location list is under contract in unit c11_locations: the per-entry closure of locations_before_sharp (R7 lift of the closure body: kind and text of every entry) and parse_before_sharp (each of the four lists holds the hashes of the entries of its kind; idna and seahash uninterpreted, sort = a permutation), joined by the R5 materialisation `entries = split(',').filter_map(closure)` which is trusted; add_generic_filter is under contract in unit c17_generic (uninterpreted relation here); the generichide lookup for the page (Engine::url_cosmetic_resources, Blocker::check_generic_hide) is under contract in unit c16_engine with Request::new, NetworkFilterList::check and hostname_cosmetic_resources entering by their contracts",
